@@ -129,7 +129,24 @@ void harness(void)
 	struct spki_table *T = &TA;
 
 	vm_install();
-	spki_table_init(T, key_cb);
+#ifdef ALLOC_FAIL
+	/* C18: the k-th allocation request fails (k symbolic, 0 = none; 1 = the table's own bucket array) */
+	vm_requests = 0;
+#ifdef ALLOC_FAIL_AT
+	vm_fail_at = ALLOC_FAIL_AT; /* concrete per job (the symbolic index costs > 20 min on two-operation histories) */
+#else
+	vm_fail_at = ND(uint8_t, "alloc.fail_at");
+#endif
+#endif
+#define ALLOC_FAILED (vm_fail_at && vm_requests >= vm_fail_at)
+	if (spki_table_init(T, key_cb) != SPKI_SUCCESS) {
+		VASSERT(ALLOC_FAILED, "C18 init: an error is reported only when the allocation failed");
+		spki_table_free(T); /* the one thing the contract allows on a table whose init failed */
+		VASSERT(vm_live == 0, "C18 init: nothing remains allocated after a failed init + free");
+		VWITNESS("spki init failed end");
+		return;
+	}
+	VASSERT(T->hashtable.bucket[0] != NULL, "C18 init: success means the bucket array exists");
 	for (unsigned int i = 0; i < MCAP; i++)
 		model[i].used = false;
 
@@ -140,7 +157,10 @@ void harness(void)
 			int at = m_find_rec(&r);
 			int rc = spki_table_add_entry(T, &r);
 
-			if (at >= 0) {
+			if (rc == SPKI_ERROR) {
+				VASSERT(ALLOC_FAILED, "C18 add: an error is reported only when an allocation failed");
+				VASSERT(cb_calls == 0, "C18 add: no callback for a failed add (no partial effect)");
+			} else if (at >= 0) {
 				VASSERT(rc == SPKI_DUPLICATE_RECORD, "add: duplicate key rejected");
 				VASSERT(cb_calls == 0, "add: no callback for a rejected duplicate");
 			} else {
@@ -201,15 +221,22 @@ void harness(void)
 			struct spki_table *N = (T == &TA) ? &TB : &TA;
 			struct rtr_socket *s = ND_BOOL("src") ? &SOCK[1] : &SOCK[0];
 
-			spki_table_init(N, NULL);
-			int rc = spki_table_copy_except_socket(T, N, s);
+			int rc = spki_table_init(N, NULL);
 
-			VASSERT(rc == SPKI_SUCCESS, "copy_except_socket: succeeds");
-			spki_table_swap(T, N);
-			spki_table_free_without_notify(N);
-			for (unsigned int i = 0; i < MCAP; i++)
-				if (model[i].used && model[i].socket == s)
-					model[i].used = false;
+			if (rc == SPKI_SUCCESS)
+				rc = spki_table_copy_except_socket(T, N, s);
+
+			if (rc != SPKI_SUCCESS) {
+				/* rtr_sync drops the shadow table and fails the exchange: the live table is untouched */
+				VASSERT(ALLOC_FAILED, "C18 copy_except_socket: fails only when an allocation failed");
+				spki_table_free_without_notify(N);
+			} else {
+				spki_table_swap(T, N);
+				spki_table_free_without_notify(N);
+				for (unsigned int i = 0; i < MCAP; i++)
+					if (model[i].used && model[i].socket == s)
+						model[i].used = false;
+			}
 			VASSERT(cb_calls == 0, "reload: copy/swap/free are silent");
 		}
 		VASSERT(tommy_hashlin_count(&T->hashtable) == m_count(), "hash table holds as many entries as the set");
@@ -238,8 +265,13 @@ void harness(void)
 #ifndef QUERY_SKI_ONLY
 	rc = spki_table_get_all(T, q_asn, q_ski, &res, &nres);
 
-	VASSERT(rc == SPKI_SUCCESS, "get_all: succeeds");
-	VASSERT(nres == want_all, "get_all: returns exactly as many keys as are stored for (AS, SKI)");
+	VASSERT(rc == SPKI_SUCCESS || (rc == SPKI_ERROR && ALLOC_FAILED), "get_all: succeeds (C18: or reports the failed allocation)");
+	if (rc != SPKI_SUCCESS) {
+		res = NULL; /* released by the callee */
+		nres = 0;
+	} else {
+		VASSERT(nres == want_all, "get_all: returns exactly as many keys as are stored for (AS, SKI)");
+	}
 	for (unsigned int i = 0; i < MCAP; i++) {
 		if (i >= nres || !res)
 			break;
@@ -256,8 +288,13 @@ void harness(void)
 #endif
 #ifndef QUERY_ALL_ONLY
 	rc = spki_table_search_by_ski(T, q_ski, &res, &nres);
-	VASSERT(rc == SPKI_SUCCESS, "search_by_ski: succeeds");
-	VASSERT(nres == want_ski, "search_by_ski: returns exactly as many keys as are stored for the SKI");
+	VASSERT(rc == SPKI_SUCCESS || (rc == SPKI_ERROR && ALLOC_FAILED), "search_by_ski: succeeds (C18: or reports the failed allocation)");
+	if (rc != SPKI_SUCCESS) {
+		res = NULL;
+		nres = 0;
+	} else {
+		VASSERT(nres == want_ski, "search_by_ski: returns exactly as many keys as are stored for the SKI");
+	}
 	for (unsigned int i = 0; i < MCAP; i++) {
 		if (i >= nres || !res)
 			break;
@@ -271,5 +308,16 @@ void harness(void)
 	lrtr_free(res);
 #endif
 	VASSERT(tommy_list_count(&T->list) == m_count(), "list holds as many entries as the set");
+#ifdef ASSERT_C18
+	/* every block obtained from the configured allocator goes back to it when the table is freed */
+	cb_calls = cb_added = cb_removed = 0;
+	{
+		unsigned int left = m_count();
+
+		spki_table_free(T);
+		(void)left;
+	}
+	VASSERT(vm_live == 0, "C18 spki: nothing remains allocated from the configured allocator once the table is freed");
+#endif
 	VWITNESS("spki history end");
 }
